@@ -1,5 +1,5 @@
 import PybropsModel.J
-import PybropsModel.Model.Mating
+import PybropsModel.Model.Pedigree
 open Lean
 
 namespace Drv.C01
@@ -42,10 +42,30 @@ def codes (s : String) : List Nat := s.toList.map Char.toNat
 def errTag : Err → String
   | .index => "index" | .value => "value" | .shape => "shape" | .oracle => "oracle"
 
+def metaKeys : List String :=
+  ["vrnt_chrgrp", "vrnt_phypos", "vrnt_name", "vrnt_genpos", "vrnt_xoprob", "vrnt_hapgrp", "vrnt_hapalt",
+   "vrnt_hapref", "vrnt_mask", "vrnt_chrgrp_name", "vrnt_chrgrp_stix", "vrnt_chrgrp_spix", "vrnt_chrgrp_len"]
+
+/-- marker metadata: each array is kept as the opaque JSON value the harness sent -/
+def metaOf (j : Json) : VMeta Json :=
+  let g (k : String) : Option Json := match j.getObjVal? k with
+    | .ok .null => none
+    | .ok v => some v
+    | .error _ => none
+  { chrgrp := g "vrnt_chrgrp", phypos := g "vrnt_phypos", name := g "vrnt_name", genpos := g "vrnt_genpos",
+    xoprob := g "vrnt_xoprob", hapgrp := g "vrnt_hapgrp", hapalt := g "vrnt_hapalt", hapref := g "vrnt_hapref",
+    mask := g "vrnt_mask", chrgrp_name := g "vrnt_chrgrp_name", chrgrp_stix := g "vrnt_chrgrp_stix",
+    chrgrp_spix := g "vrnt_chrgrp_spix", chrgrp_len := g "vrnt_chrgrp_len" }
+
+def ofMeta (m : VMeta Json) : Json :=
+  let o (x : Option Json) : Json := x.getD .null
+  J.obj (List.zip metaKeys [o m.chrgrp, o m.phypos, o m.name, o m.genpos, o m.xoprob, o m.hapgrp, o m.hapalt,
+    o m.hapref, o m.mask, o m.chrgrp_name, o m.chrgrp_stix, o m.chrgrp_spix, o m.chrgrp_len])
+
 structure Args where
   P : Proto
   pop : Pop Int
-  xc : List (List Nat)
+  xc : List (List Int)
   nm : Cnt
   np : Cnt
   nself : Nat
@@ -57,7 +77,7 @@ def args (j : Json) : J.R Args := do
   let P ← protoOf (← J.field j "proto" J.str)
   let pop ← popOf (← J.field j "geno" (J.list (J.mat J.int)))
   pure { P := P, pop := pop,
-         xc := ← J.field j "xconfig" (J.mat J.nat),
+         xc := ← J.field j "xconfig" (J.mat J.int),
          nm := ← J.field j "nmating" cnt, np := ← J.field j "nprogeny" cnt,
          nself := ← J.field j "nself" J.nat, xo := ← J.field j "xo" (J.list J.rat),
          pc := ← J.field j "pc" J.nat, fc := ← J.field j "fc" J.nat }
@@ -66,10 +86,12 @@ def args (j : Json) : J.R Args := do
 def opMate : J.Op := fun j => do
   let a ← args j
   let draws ← drawsOf j
-  match mate a.P a.pop a.xc a.nm a.np a.nself a.xo a.pc a.fc draws with
+  let pg := metaOf ((j.getObjVal? "meta").toOption.getD .null)
+  match mateFull a.P a.pop pg a.xc a.nm a.np a.nself a.xo a.pc a.fc draws with
   | .error e => pure <| J.obj [("error", J.ofStr (errTag e))]
-  | .ok o =>
+  | .ok (o, m) =>
     pure <| J.obj [
+      ("meta", ofMeta m),
       ("mat", J.ofList (J.ofMat J.ofInt) (matOf (o.rows.map Row.ind))),
       ("taxa", J.ofList J.ofStr (o.rows.map (fun r => strOf r.name))),
       ("taxa_grp", J.ofList J.ofNat (o.rows.map Row.grp)),
@@ -93,7 +115,7 @@ def opSpecMate : J.Op := fun j => do
   else
     let rows : List (Row Int) := (List.zip prog (List.zip taxa grp)).map (fun x => ⟨x.1, codes x.2.1, x.2.2⟩)
     let out : Out Int := { rows := rows, pc := pc', fc := fc', grpMeta := [] }
-    let (ok, msg) := specMate a.P a.pop a.xc a.nm a.np a.nself a.xo a.pc a.fc out
+    let (ok, msg) := specMate a.P a.pop (wrapConfig a.pop.length a.xc) a.nm a.np a.nself a.xo a.pc a.fc out
     pure <| J.obj [("ok", J.ofBool ok), ("detail", J.ofStr msg)]
 
 /-- the three matrix utilities (`mat_*` and their `dense_*` duplicates) -/
